@@ -62,8 +62,8 @@ For each change k in ({nums}) deliver a directory /tmp/{wave}out/{pid}-k/ contai
                and write nothing outside the system temp dir
   meta.json    {{"property": "{pid}", "title": "<one line: what the change does>", "breaks": "<which clause of the property and how>",
                "needs": "<what is required for it to manifest>", "files": ["gnpy/..."]}}
-Work on ONE change at a time: make it, verify (a), (b) with the demo both ways (`git stash` / `git checkout -- .` to get the
-unchanged tree back), save the three files, then `git checkout -- .` before the next change. Leave the worktree clean at the end.
+Work on ONE change at a time: make it, verify (a), (b) with the demo both ways (`git diff > /tmp/<your-own-name>.diff; git checkout -- .` to get the
+unchanged tree back, `git apply` the saved diff to return - NEVER `git stash`: the stash is shared between all worktrees of the repository and other developers use them at the same time), save the three files, then `git checkout -- .` before the next change. Leave the worktree clean at the end.
 Never run `pkill`/`killall`: other people share this machine; only kill processes by the PID you started.
 Final answer: for each change, one paragraph - what it does, what it needs to manifest, the test-suite tail line, and the demo's
 output on both trees.
